@@ -3,7 +3,7 @@
     memory, and one "step and continue" lemma per instruction the compiler
     emits.  A push onto a full stack ([STACK_SIZE]) ends the run with
     [ME_StackOverflow]; every lemma carries that alternative ([mruno]). *)
-From Aranya Require Import base.Tactics model.VmBase gen.GenVm model.Vm.
+From Aranya Require Import base.Tactics model.VmBase gen.GenVm model.Vm proofs.VmTotal.
 Local Open Scope N_scope.
 
 Lemma len_app {A} (a b : list A) : len (a ++ b) = len a + len b.
@@ -48,28 +48,59 @@ Section Exec.
   Lemma mrun_weaken (Q Q' : RS -> Prop) s o : (forall x, Q x -> Q' x) -> mrun Q s o -> mrun Q' s o.
   Proof. intros HQ H; induction H; [constructor|eapply ex_step|eapply ex_exit|eapply ex_err]; eauto. Qed.
 
-  (** ... or the stack overflowed on the way. *)
-  Definition ovf (Q : RS -> Prop) (s : RS) : Prop := exists s1, mrun Q s (MErr ME_StackOverflow s1).
+  (** The representation invariant of run states ([heapless::Vec<_, STACK_SIZE>]; saved stack
+      depths and pcs fit a [usize]); [Vm.step] preserves it ([VmTotal.step_good]). *)
+  Definition Wb (s : RS) : Prop :=
+    len (rs_stack s) <= STACK_SIZE /\ Forall (fun x => x < usize_max) (rs_call_state s).
+  Lemma N_lt_dec (a b : N) : {a < b} + {~ a < b}.
+  Proof. destruct (a <? b) eqn:E; [left|right]; lia. Qed.
+  Lemma Wb_dec s : Wb s \/ ~ Wb s.
+  Proof.
+    unfold Wb. destruct (N.le_gt_cases (len (rs_stack s)) STACK_SIZE) as [H|H].
+    - destruct (Forall_dec (fun x => x < usize_max) (fun x => N_lt_dec x usize_max) (rs_call_state s)) as [F|F].
+      + left; auto.
+      + right; intros [_ H']; auto.
+    - right; intros [H' _]; lia.
+  Qed.
+
+  (** ... or the stack overflowed on the way - or a state outside the representation invariant was
+      reached, which [mruno_sound] below rules out for runs that start inside it. *)
+  Definition ovf (Q : RS -> Prop) (s : RS) : Prop :=
+    (exists s1, mrun Q s (MErr ME_StackOverflow s1)) \/ (exists s1, mrun Q s (MTo s1) /\ ~ Wb s1).
   Definition mruno (Q : RS -> Prop) (s : RS) (o : mres) : Prop := mrun Q s o \/ ovf Q s.
 
   Lemma mruno_done (Q : RS -> Prop) s : mruno Q s (MTo s).
   Proof. left; constructor. Qed.
+  Lemma ovf_trans (Q : RS -> Prop) s s1 : mrun Q s (MTo s1) -> ovf Q s1 -> ovf Q s.
+  Proof.
+    intros H [[x Hx]|[x [Hx Hw]]]; [left|right]; exists x; [|split; auto]; eapply mrun_trans; eauto.
+  Qed.
   Lemma mruno_trans (Q : RS -> Prop) s s1 o : mruno Q s (MTo s1) -> mruno Q s1 o -> mruno Q s o.
   Proof.
-    intros [H|H] [H'|[x H']]; [left|right|right|right]; auto.
+    intros [H|H] [H'|H']; [left|right|right|right]; auto.
     - eapply mrun_trans; eauto.
-    - exists x. eapply mrun_trans; eauto.
+    - eapply ovf_trans; eauto.
+  Qed.
+  Lemma ovf_weaken (Q Q' : RS -> Prop) s : (forall x, Q x -> Q' x) -> ovf Q s -> ovf Q' s.
+  Proof.
+    intros HQ [[x Hx]|[x [Hx Hw]]]; [left|right]; exists x; [|split; auto]; eapply mrun_weaken; eauto.
   Qed.
   Lemma mruno_weaken (Q Q' : RS -> Prop) s o : (forall x, Q x -> Q' x) -> mruno Q s o -> mruno Q' s o.
-  Proof. intros HQ [H|[x H]]; [left|right; exists x]; eapply mrun_weaken; eauto. Qed.
+  Proof. intros HQ [H|H]; [left; eapply mrun_weaken|right; eapply ovf_weaken]; eauto. Qed.
   Lemma mruno_step (Q : RS -> Prop) s s1 o : Q s -> stepm s = Executing s1 -> mruno Q s1 o -> mruno Q s o.
-  Proof. intros HQ Hs [H|[x H]]; [left|right; exists x]; eapply ex_step; eauto. Qed.
+  Proof.
+    intros HQ Hs [H|H]; [left; eapply ex_step; eauto|right].
+    eapply ovf_trans; [|exact H]. eapply ex_step; eauto. constructor.
+  Qed.
   Lemma mruno_exit (Q : RS -> Prop) s r s1 : Q s -> stepm s = Exited r s1 -> mruno Q s (MExit r s1).
   Proof. intros; left; eapply ex_exit; eauto. Qed.
   Lemma mruno_err (Q : RS -> Prop) s e s1 : Q s -> stepm s = Errored e s1 -> mruno Q s (MErr (err_type e) s1).
   Proof. intros; left; eapply ex_err; eauto. Qed.
   Lemma mruno_ovf (Q : RS -> Prop) s e s1 o : Q s -> stepm s = Errored e s1 -> err_type e = ME_StackOverflow -> mruno Q s o.
-  Proof. intros HQ Hs He. right. exists s1. rewrite <- He. eapply ex_err; eauto. Qed.
+  Proof. intros HQ Hs He. right. left. exists s1. rewrite <- He. eapply ex_err; eauto. Qed.
+  (** a state outside the invariant stands for any outcome *)
+  Lemma mruno_bad (Q : RS -> Prop) s o : ~ Wb s -> mruno Q s o.
+  Proof. intros H. right. right. exists s. split; [constructor|exact H]. Qed.
 
   (** ** What [mrun] says about [Vm.run] *)
   Hypothesis Hcm : codemap m = None.
@@ -212,6 +243,29 @@ Section Exec.
     Vm.exec dbg io m i s = Stop (Errored e s') -> err_type e = ME_StackOverflow ->
     Q s -> mruno Q s o.
   Proof. intros Hi He Ht HQ. eapply mruno_ovf; [exact HQ|eapply step_stop; eauto|exact Ht]. Qed.
+  (** ** The invariant is kept, so runs that start inside it never leave it *)
+  Hypothesis Hrepr : dbg = true -> Forall instr_repr (progmem m).
+
+  Lemma step_Wb s s1 : Wb s -> stepm s = Executing s1 -> Wb s1.
+  Proof.
+    intros Hw Hs.
+    assert (Hc : cm_ok m) by (unfold cm_ok; rewrite Hcm; exact Logic.I).
+    pose proof (step_good dbg io m Hc true (fun _ => eq_refl) true s eq_refl (conj (fun _ => Hlen) Hrepr) (fun _ => Hw)) as Hg.
+    rewrite Hs in Hg. exact (Hg eq_refl).
+  Qed.
+  Lemma mrun_Wb (Q : RS -> Prop) s s1 : mrun Q s (MTo s1) -> Wb s -> Wb s1.
+  Proof.
+    intros H. remember (MTo s1) as r eqn:E. induction H; intros Hw; try discriminate.
+    - inversion E; subst; auto.
+    - apply IHmrun; auto. eapply step_Wb; eauto.
+  Qed.
+  (** from a state inside the invariant: the run ends as stated, or in a stack overflow *)
+  Lemma mruno_sound (Q : RS -> Prop) s o :
+    Wb s -> mruno Q s o -> mrun Q s o \/ exists s1, mrun Q s (MErr ME_StackOverflow s1).
+  Proof.
+    intros Hw [H|[H|[s1 [H Hn]]]]; auto. exfalso. apply Hn. eapply mrun_Wb; eauto.
+  Qed.
+
 End Exec.
 
 Arguments MTo {St}. Arguments MExit {St}. Arguments MErr {St}.
@@ -221,4 +275,13 @@ Ltac vm_unf := cbv beta iota zeta delta [bind ret gets modify ipush ipop ipop_va
    push_value pop_value lift_pos lift_nopos scope_op_pos scope_op_nopos replace_top set_stack set_scope
    set_pc set_call_state set_io set_ctx set_query_iters stop_executing stop_exited jump_to push_nopos pop_nopos
    rs_stack rs_scope rs_pc rs_call_state rs_ctx rs_io rs_query_iters io_lift
-   as_int as_bool as_struct as_identifier].
+   as_int as_bool as_struct as_identifier scope_enter_block scope_exit_block scope_enter_function
+   scope_exit_function].
+
+(** the same, leaving a final [ipush] in place *)
+Ltac vm_unf_np := cbv beta iota zeta delta [bind ret gets modify ipop ipop_value ipeek_value pop_with
+   pop_value lift_pos lift_nopos scope_op_pos scope_op_nopos replace_top set_stack set_scope
+   set_pc set_call_state set_io set_ctx set_query_iters stop_executing stop_exited jump_to pop_nopos
+   rs_stack rs_scope rs_pc rs_call_state rs_ctx rs_io rs_query_iters io_lift
+   as_int as_bool as_struct as_identifier scope_enter_block scope_exit_block scope_enter_function
+   scope_exit_function].
